@@ -258,6 +258,46 @@ func c09sites(p *Program, r *Report, rule string) {
 	}
 }
 
+// cRwc: the transport object is used only to build the buffered reader/writer, to be closed, and for
+// the address accessors. Any other use (deadlines, direct reads or writes, SetReadDeadline …) bypasses
+// the timeout channels and the single emitter.
+func cRwc(p *Program, r *Report, rule string) {
+	f := p.Field("Conn.rwc")
+	if f == nil {
+		return
+	}
+	allowed := map[string]string{
+		"newConn":             "stored from the config; passed to extractBufioWriterBuf (dummy write before publication)",
+		"Conn.closeTransport": "Close()",
+		"Conn.close":          "Close() (pre-repair layout)",
+		"netConn.RemoteAddr":  "type assertion to net.Conn for the address",
+		"netConn.LocalAddr":   "type assertion to net.Conn for the address",
+	}
+	n := 0
+	for _, fa := range p.FieldAccesses(f) {
+		fname := p.FuncName(fa.Fn)
+		okAll := true
+		for _, owner := range p.siteOwners(fa.Fn) {
+			if _, ok := allowed[owner]; !ok {
+				okAll = false
+			}
+		}
+		n++
+		r.Check(rule, fname, "use of Conn.rwc", p.InstrPos(fa.Instr), okAll, "Conn.rwc is used only by newConn, closeTransport (Close) and the address accessors; all I/O goes through Conn.br / Conn.bw inside the armed windows, and no transport deadline is ever set", firstNonEmpty(allowed[fname], "unexpected use in "+fname))
+	}
+	r.Floor(rule, 3)
+	// in closeTransport the only method invoked on it is Close
+	if fn := p.FuncOpt("Conn.closeTransport"); fn != nil {
+		for _, b := range fn.Blocks {
+			for _, in := range b.Instrs {
+				if ci, ok := in.(ssa.CallInstruction); ok && ci.Common().IsInvoke() && derivesFromField(ci.Common().Value, f) {
+					r.Check(rule, "Conn.closeTransport", "rwc."+ci.Common().Method.Name(), p.InstrPos(in), ci.Common().Method.Name() == "Close", "closeTransport only calls rwc.Close()", ci.Common().Method.Name())
+				}
+			}
+		}
+	}
+}
+
 func c09ctx(p *Program, r *Report, rule string) {
 	const fiveS = "5000000000"
 	for _, s := range []struct {
@@ -553,6 +593,7 @@ func c20selfjoin(p *Program, r *Report, rule string) {
 func runC09(p *Program, r *Report) {
 	armingRules(p, r, true, false)
 	c09sites(p, r, "C09.sites")
+	cRwc(p, r, "C09.rwc")
 	c09ctx(p, r, "C09.ctx")
 	c09escape(p, r, "C09.escape")
 	c09cancel(p, r, "C09.cancel")
@@ -620,6 +661,8 @@ func runC10(p *Program, r *Report) {
 	c10loop(p, r, "C10.loop")
 	c10child(p, r, "C10.child")
 	c09ctx(p, r, "C10.child.ctx")
+	cRwc(p, r, "C10.rwc")
+	c05msglock(p, r, "C10.msglock")
 }
 
 func c10loop(p *Program, r *Report, rule string) {
